@@ -44,7 +44,7 @@ func solverDefs(timeout float64) []solverDef {
 
 func NewSolverPool(dir string) *SolverPool {
 	os.MkdirAll(dir, 0o755)
-	return &SolverPool{Dir: dir, Parallel: 14, Stats: map[string]*SolverStat{}}
+	return &SolverPool{Dir: dir, Parallel: 12, Stats: map[string]*SolverStat{}}
 }
 
 type solveOut struct {
@@ -60,7 +60,17 @@ func runSolver(ctx context.Context, def solverDef, file string) solveOut {
 	var out bytes.Buffer
 	cmd.Stdout = &out
 	cmd.Stderr = &out
-	cmd.Run()
+	if err := cmd.Run(); err != nil && out.Len() == 0 {
+		// the solver did not even start (resource shortage): try once more after a pause
+		time.Sleep(200 * time.Millisecond)
+		out.Reset()
+		cmd = exec.CommandContext(ctx, def.Cmd[0], append(def.Cmd[1:], file)...)
+		cmd.Stdout = &out
+		cmd.Stderr = &out
+		if err2 := cmd.Run(); err2 != nil && out.Len() == 0 {
+			out.WriteString("solver failed to run: " + err2.Error())
+		}
+	}
 	s := out.String()
 	first := strings.TrimSpace(strings.SplitN(s, "\n", 2)[0])
 	ans := "unknown"
@@ -268,4 +278,10 @@ func (sp *SolverPool) Discharge(ts *TermStore, obls []*Obligation, timeout float
 		}()
 	}
 	wg.Wait()
+	// an `unknown` that came back at once is suspicious (a solver that could not run): once more, one by one
+	for _, o := range obls {
+		if o.Status == "unknown" && o.Secs < 1.0 && o.Query != "" {
+			sp.solveOne(ts, o, timeout, fast)
+		}
+	}
 }
